@@ -122,7 +122,7 @@ package signal
 //@   panics-iff[bounds: C02] start < 0 || start > end || end > ite(b.channels == 0, 0, fdiv(cap(b.data), b.channels))
 //@   ensures[fresh-header] fresh(result)
 //@   ensures[shape] result.channels == b.channels && result.bitDepth == b.bitDepth
-//@   ensures[window] ptr(result.data) == ptr(b.data) + bi(b.channels, 0, start)
+//@   ensures[window: C02 C04 C12] ptr(result.data) == ptr(b.data) + bi(b.channels, 0, start)
 //@     | && len(result.data) == bi(b.channels, 0, end) - bi(b.channels, 0, start)
 //@     | && cap(result.data) == cap(b.data) - bi(b.channels, 0, start)
 //@   ensures[wf] wf(result)
